@@ -46,7 +46,21 @@ RULE = (
     "/ redistribute): every call is judged against the state the objects have then and against a call on independent objects "
     "rebuilt from copies, earlier results must stay bit-identical, writing into returned objects must reach neither data nor "
     "guess nor earlier results; (10) stoptol also 2.5 and 1e300 (the run ends at the first test it makes), maxiters 1, "
-    "printitn beyond maxiters -- all labelled."
+    "printitn beyond maxiters -- all labelled.  "
+    "Round 4 classes: (13) cell reporting-options: the same call silent and with printitn 1, 2, 3, maxiters, maxiters+1, 1000, 10**9, "
+    "-1, -7 and with the root logger at DEBUG / INFO / 1 (NullHandler, logging enabled inside the cell) on all four data kinds: model, "
+    "returned guess and iteration count bit for bit, fit and residual bit for bit within the silent and within the printing runs and to "
+    "1e-12 S across (printing runs recompute them from the final model), every run judged against NumPy; (11) cell presentations: rank as "
+    "numpy int32 / uint8 / uint16 / int64 scalar, dimorder / optdims as list, tuple, int16..uint64 arrays, list of numpy scalars, 1 x n "
+    "row, a single optimised mode as bare (numpy) int, options positionally / as numpy scalars / Python ints, omitted mode lists given "
+    "as range(N), all options omitted against all documented defaults given, the guess from C-ordered / strided / read-only (by "
+    "reference) matrices, a tuple, ktensor.copy(), the data from read-only (by reference) / strided / C-ordered arrays, sparse "
+    "subscripts in int32 / uint8 / uint16 / uint64, shape as list / numpy integers: same bits, same printed text (to rounding where the "
+    "data buffers change memory layout); cell float32-data: tensor / sptensor values in float32 at magnitudes 1e-25 .. 1e+25, judged "
+    "with single-precision bounds; (12, 14) cell rejected-requests: between two identical valid calls 1..3 excluded requests (guess of "
+    "another rank / order / mode size incl. sizes 1 that would broadcast, a third of the cases with every extent but one equal to 1; "
+    "ill-formed dimorder / optdims / rank / guess name / maxiters 0): ill-formed guesses must be rejected, and after any rejection data, "
+    "guesses, earlier results, numpy error state / print options / logging state are unchanged and the valid call gives the same bits."
 )
 ASSUMPTIONS = [
     "bulk numeric content (factors, noise, masks, given guesses) is expanded by np.random.default_rng from integer seeds "
@@ -60,6 +74,9 @@ ASSUMPTIONS = [
     "and not judged",
     "printed values carry 7 significant digits: |printed - value| <= 6e-7 |value|",
     "unit columns: | ||col|| - 1 | <= 1e-12",
+    "round 4: printing on/off changes the formula of the reported fit / residual (final recomputation from the arranged model): "
+    "|nr_a^2 - nr_b^2| <= 1e-12 S (observed 6e-16 S); float32 data: |reported^2 - recomputed^2| <= 1e-5 S (eps32 = 6e-8; observed "
+    "1e-7 S), model after one sweep vs the same values held in float64: ||dM||^2 <= 1e-6 S",
     "stop rule (docstring): stops at the first iteration k >= 1 whose |fit_k - fit_{k-1}| < stoptol; judged only when the "
     "margin to stoptol exceeds 1e-9",
 ]
@@ -904,3 +921,625 @@ def cp_als_live_objects(ctx, case):
             from ..core import Skip
             if isinstance(e, Skip):
                 raise
+
+
+# --------------------------------------------------------------------------
+# round 4: class 13 (reporting options, logging level), class 11 (presentation of valid arguments), classes 12 / 14
+# (state after a rejected request, ill-formed guesses that would broadcast)
+# --------------------------------------------------------------------------
+
+import contextlib as _contextlib
+import logging as _logging
+
+
+def _judged_unless_breakdown(ctx, case, inner):
+    """inner(ctx, case, env); a failure on an instance where the alternating iteration itself breaks down is not judged"""
+    env = {}
+    try:
+        inner(ctx, case, env)
+    except Abort:
+        if not (ctx.violations and "diag" in env and env["diag"]()):
+            raise
+    else:
+        if not (ctx.violations and "diag" in env and env["diag"]()):
+            return
+    ctx.violations.clear()
+    ctx.skip("als-breakdown:singular-or-annihilating-step")
+
+
+def _prepare(ctx, case, env):
+    shape = [int(s) for s in case["shape"]]
+    N, R = len(shape), int(case["R"])
+    X, A = H.build_data(case)
+    if H.unfolding_margin(A, R) < 1e-6:
+        ctx.skip("unfolding-rank-below-R")
+    if case["init"] == "result":
+        with ctx.sut("cp_als-producing-the-guess"):
+            with H.captured():
+                init = ttb.cp_als(X, R, init=H.build_init(dict(case, init="normal")), maxiters=1, printitn=0)[0]
+        ctx.require(isinstance(init, ttb.ktensor), "returns-ktensor", type(init).__name__)
+    else:
+        init = H.build_init(case)
+    dimorder = case["dimorder"] if case["dimorder"] is not None else list(range(N))
+    optdims = case["optdims"] if case["optdims"] is not None else list(range(N))
+    seq = [d for d in dimorder if d in optdims]
+    memo = {}
+
+    def diag():
+        if "v" not in memo:
+            memo["v"] = _breakdown(X, A, R, case, init, int(case["maxiters"]))
+        return memo["v"]
+
+    env["diag"] = diag
+    return X, A, init, shape, N, R, seq, diag
+
+
+def _bits(res):
+    """everything a call returned that the caller can look at, bit for bit (model, returned guess, fit, residual, iterations)"""
+    M, G, out = res
+    f, nr = out.get("fit"), out.get("normresidual")
+    return (H.snapshot(M), H.snapshot(G), np.float64(f).tobytes() if H.is_float(f) else repr(f),
+            np.float64(nr).tobytes() if H.is_float(nr) else repr(nr), H.as_int(out.get("iters")))
+
+
+REPORT_VARIANTS = {
+    # name: (printitn | "maxiters" | "maxiters+1", level of the root logger or None)
+    "printitn-1": (1, None), "printitn-2": (2, None), "printitn-3": (3, None), "printitn-1000": (1000, None),
+    "printitn-10**9": (10**9, None), "printitn-maxiters": ("maxiters", None), "printitn-maxiters+1": ("maxiters+1", None),
+    "printitn--1": (-1, None), "printitn--7": (-7, None),
+    "debug-printitn-0": (0, _logging.DEBUG), "debug-printitn-1": (1, _logging.DEBUG), "debug-printitn-1000": (1000, _logging.DEBUG),
+    "debug-printitn--1": (-1, _logging.DEBUG), "info-printitn-0": (0, _logging.INFO), "level1-printitn-0": (0, 1),
+    "level1-printitn-2": (2, 1),
+}
+
+
+@st.composite
+def _reporting_case(draw, tier):
+    holder = draw(st.sampled_from(["tensor", "sptensor", "ttensor", "sumtensor", "sumtensor"]))
+    c = draw(_case_strategy(holder, big_one_in=60)(tier))
+    if c["init"] == "nvecs":  # recomputed by ARPACK with an unseedable start: not the same guess twice
+        c["init"] = "normal"
+    ks = draw(st.lists(st.integers(0, 10**6), min_size=3, max_size=5))
+    names = sorted(REPORT_VARIANTS)
+    c["variants"] = list(dict.fromkeys(names[k % len(names)] for k in ks))
+    return c
+
+
+def _reporting_inner(ctx, case, env):
+    X, A, init, shape, N, R, seq, diag = _prepare(ctx, case, env)
+    is_sum = case["holder"] == "sumtensor"
+    maxiters, stoptol = int(case["maxiters"]), float(case["stoptol"])
+    ctx.nt = R >= 2 and N >= 3
+    ctx.label("holder-" + case["holder"], "init-" + case["init"], f"order{N}", "fixsigns-" + str(bool(case["fixsigns"])),
+              "maxiters-1" if maxiters == 1 else "maxiters>1", "stoptol-0" if stoptol == 0 else "stoptol>0",
+              "dimorder-and-optdims" if case["dimorder"] is not None and case["optdims"] is not None else "not-both-orders",
+              "stoptol>0-with-maxiters-1" if stoptol > 0 and maxiters == 1 else "other-stop-options")
+    snapX, snapI = H.snapshot(X), H.snapshot(init)
+    res, text = _guarded(ctx, "cp_als-silent", diag, X, R, case, init, maxiters, stoptol, 0)
+    base = _unpack(ctx, res, "silent-")
+    _model_ok(ctx, base[0], shape, R, "silent-", diag)
+    ctx.check(text.strip() == "", "silent-when-printitn-0", text[:80])
+    _, S = _check_reported(ctx, base[2], A, base[0], is_sum, "silent-")
+    _check_normal_form(ctx, base[0], "silent-")
+    bb = _bits(base)
+    ctx.label("stopped-early" if bb[4] is not None and bb[4] < maxiters - 1 else "ran-to-limit")
+    first_printing = None
+    for name in case["variants"]:
+        p, level = REPORT_VARIANTS[name]
+        p = maxiters if p == "maxiters" else (maxiters + 1 if p == "maxiters+1" else p)
+        tag = ("log-level-" if level is not None else "") + ("printing-" if p > 0 else "silent-")
+        ctx.label("variant-" + name)
+        with (H.root_logger_at(level) if level is not None else _contextlib.nullcontext()):
+            res, text = _guarded(ctx, "cp_als-" + tag[:-1], diag, X, R, case, init, maxiters, stoptol, p)
+        v = _unpack(ctx, res, tag)
+        _model_ok(ctx, v[0], shape, R, tag, diag)
+        _check_reported(ctx, v[2], A, v[0], is_sum, tag)
+        vb = _bits(v)
+        ctx.check(vb[0] == bb[0], tag + "same-model-bits-as-the-silent-run", name)
+        ctx.check(vb[1] == bb[1], tag + "same-returned-guess-bits-as-the-silent-run", name)
+        ctx.check(vb[4] == bb[4], tag + "same-iteration-count-as-the-silent-run", (name, vb[4], bb[4]))
+        if p <= 0:
+            ctx.check(text.strip() == "", "silent-when-printitn-0", (name, text[:80]))
+            ctx.check(vb[2:4] == bb[2:4], tag + "same-fit-and-residual-bits-as-the-silent-run",
+                      (name, v[2].get("fit"), base[2].get("fit"), v[2].get("normresidual"), base[2].get("normresidual")))
+        else:
+            # with printing on, fit and residual are recomputed from the final model by another formula: equal to rounding
+            fa, fb = float(v[2]["fit"]), float(base[2]["fit"])
+            na, nb = float(v[2]["normresidual"]), float(base[2]["normresidual"])
+            if is_sum:
+                ok = abs(fa - fb) <= 1e-12 * S and abs(na - nb) <= 1e-12 * S
+            else:
+                nX = float(np.sqrt(H.sq(A)))
+                ok = abs(na * na - nb * nb) <= 1e-12 * S and abs(((1 - fa) * nX) ** 2 - ((1 - fb) * nX) ** 2) <= 1e-12 * S
+            ctx.check(ok, tag + "same-fit-and-residual-as-the-silent-run", (name, fa, fb, na, nb, S))
+            if first_printing is None:
+                first_printing = (name, vb)
+            else:
+                ctx.check(vb[2:4] == first_printing[1][2:4], tag + "same-fit-and-residual-bits-as-another-printing-run",
+                          (name, first_printing[0], v[2].get("fit"), v[2].get("normresidual")))
+            its, final, bad = H.parse_iter_lines(text)
+            ctx.check(not bad and final is not None and printed_ok(final, fa), tag + "final-equals-reported-fit", (name, final, fa))
+            if vb[4] is not None:
+                idx = [i for i, _, _ in its]
+                want = [k for k in range(vb[4] + 1) if k % p == 0]
+                ctx.check(all(k in idx for k in want) and all(0 <= k <= vb[4] for k in idx), tag + "printed-iterations",
+                          (name, idx, want))
+    ctx.check(H.snapshot(X) == snapX, "data-unchanged")
+    ctx.check(H.snapshot(init) == snapI, "guess-unchanged")
+
+
+@cell("C09/cp_als/reporting-options", strategy=_reporting_case, quick=500, thorough=5000, shards=(4, 16))
+def cp_als_reporting(ctx, case):
+    """class 13: the same call (same data, same guess, same options) silent, printing at several intervals (1, 2, 3, the
+    iteration limit, beyond it, 1000, 10**9, negative) and with the root logger at DEBUG / INFO / 1: model, returned guess and
+    iteration count bit for bit; fit and residual bit for bit among the silent runs and among the printing runs, and equal to
+    rounding (1e-12 S) across the two (the printing runs recompute them from the final model); every run judged against NumPy."""
+    _judged_unless_breakdown(ctx, case, _reporting_inner)
+
+
+ARG_PRESENTATIONS = (
+    ["rank-int32", "rank-uint8", "rank-int64", "rank-uint16"]
+    + ["orders-" + f for f in H.INT_FORMS]
+    + ["orders-mixed", "optdims-bare-int", "optdims-bare-int32", "optdims-bare-uint8", "positional", "options-numpy-scalars",
+       "options-python-ints", "defaults-made-explicit", "defaults-all"]
+)
+INIT_PRESENTATIONS = ["init-c-ordered", "init-strided", "init-readonly", "init-readonly-nocopy", "init-tuple", "init-copy-method"]
+DATA_PRESENTATIONS = ["data-readonly", "data-readonly-nocopy", "data-strided", "data-c-ordered", "data-subs-int32", "data-subs-uint8",
+                      "data-subs-uint16", "data-subs-uint64", "data-shape-int32", "data-shape-uint8", "data-shape-list"]
+
+
+@st.composite
+def _presentation_case(draw, tier):
+    holder = draw(st.sampled_from(["tensor", "sptensor", "sptensor", "ttensor", "sumtensor"]))
+    c = draw(_case_strategy(holder, big_one_in=60)(tier))
+    if c["init"] == "nvecs":
+        c["init"] = "normal"
+    N = len(c["shape"])
+    k = draw(st.integers(0, 10**6)) % 4
+    if k == 0:  # a single optimised mode: may be given as a bare (numpy) int
+        c["optdims"] = [draw(st.integers(0, N - 1))]
+    elif k == 1 and c["optdims"] is None:
+        c["optdims"] = list(draw(st.permutations(range(N))))[:draw(st.integers(1, N))]
+    if c["dimorder"] is None and draw(st.booleans()):
+        c["dimorder"] = list(draw(st.permutations(range(N))))
+    c["form"] = "list"
+    c["maxiters"] = min(int(c["maxiters"]), 4)
+    if c["printitn"] < 0:
+        c["printitn"] = 0
+    pool = ARG_PRESENTATIONS * 2 + INIT_PRESENTATIONS + [d for d in DATA_PRESENTATIONS if holder in ("sptensor", "sumtensor", "ttensor")
+                                                         or not d.startswith("data-subs")]
+    # (drawn through integers: Hypothesis favours the first elements of sampled_from)
+    ks = draw(st.lists(st.integers(0, 10**6), min_size=4, max_size=6))
+    c["variants"] = list(dict.fromkeys(pool[k % len(pool)] for k in ks))
+    if "defaults-made-explicit" in c["variants"]:
+        c["dimorder"] = None
+    return c
+
+
+def _call(data, rank, init, o, np_seed, positional=False):
+    """cp_als with the options of `o` (already in the presentation wanted); dimorder / optdims None = left out"""
+    if isinstance(init, str) and init == "random":
+        np.random.seed(np_seed)
+    with H.captured() as buf:
+        if positional:  # documented order: stoptol, maxiters, dimorder, optdims, init, printitn, fixsigns
+            res = ttb.cp_als(data, rank, o["stoptol"], o["maxiters"], o["dimorder"], o["optdims"], init, o["printitn"], o["fixsigns"])
+        else:
+            kw = {k: v for k, v in o.items() if not (k in ("dimorder", "optdims") and v is None)}
+            res = ttb.cp_als(data, rank, init=init, **kw)
+    return res, buf.getvalue()
+
+
+def _layout(x):
+    """contiguity flags of every array a data object is made of"""
+    fl = lambda a: (bool(np.asarray(a).flags["F_CONTIGUOUS"]), bool(np.asarray(a).flags["C_CONTIGUOUS"]))  # noqa: E731
+    if isinstance(x, ttb.tensor):
+        return ("tensor", fl(x.data))
+    if isinstance(x, ttb.sptensor):
+        return ("sptensor",)
+    if isinstance(x, ttb.ktensor):
+        return ("ktensor", tuple(fl(f) for f in x.factor_matrices))
+    if isinstance(x, ttb.ttensor):
+        return ("ttensor", _layout(x.core), tuple(fl(f) for f in x.factor_matrices))
+    if isinstance(x, ttb.sumtensor):
+        return ("sumtensor", tuple(_layout(p) for p in x.parts))
+    return ("other",)
+
+
+def _presentation_inner(ctx, case, env):
+    X, A, init, shape, N, R, seq, diag = _prepare(ctx, case, env)
+    is_sum = case["holder"] == "sumtensor"
+    ctx.nt = R >= 2 and N >= 3
+    o0 = dict(stoptol=float(case["stoptol"]), maxiters=int(case["maxiters"]),
+              dimorder=None if case["dimorder"] is None else list(case["dimorder"]),
+              optdims=None if case["optdims"] is None else list(case["optdims"]),
+              printitn=int(case["printitn"]), fixsigns=bool(case["fixsigns"]))
+    ctx.label("holder-" + case["holder"], "init-" + case["init"], f"order{N}",
+              "dimorder-given" if o0["dimorder"] is not None else "dimorder-default",
+              "optdims-default" if o0["optdims"] is None else ("optdims-single" if len(o0["optdims"]) == 1 else "optdims-several"),
+              "dimorder-with-optdims" if o0["dimorder"] is not None and o0["optdims"] is not None else "not-both-orders")
+    snapX, snapI = H.snapshot(X), H.snapshot(init)
+    try:
+        res, text0 = _call(X, R, init, o0, case["np_seed"])
+    except (np.linalg.LinAlgError, FloatingPointError, ValueError):
+        if diag():
+            ctx.skip("als-breakdown:singular-or-annihilating-step")
+        with ctx.sut("cp_als-canonical"):
+            raise
+    except Exception:  # noqa: BLE001
+        with ctx.sut("cp_als-canonical"):
+            raise
+    base = _unpack(ctx, res, "canonical-")
+    _model_ok(ctx, base[0], shape, R, "canonical-", diag)
+    _check_reported(ctx, base[2], A, base[0], is_sum, "canonical-")
+    bb = _bits(base)
+    for name in case["variants"]:
+        o, rank, data, guess, positional = dict(o0), R, X, init, False
+        if name.startswith("rank-"):
+            rank = np.dtype(name[5:]).type(R)
+        elif name.startswith("orders-") and name != "orders-mixed":
+            o["dimorder"] = H.int_seq_form(o0["dimorder"], name[7:])
+            o["optdims"] = H.int_seq_form(o0["optdims"], name[7:])
+        elif name == "orders-mixed":
+            o["dimorder"] = H.int_seq_form(o0["dimorder"], "uint8")
+            o["optdims"] = H.int_seq_form(o0["optdims"], "npscalars")
+        elif name.startswith("optdims-bare"):
+            if o0["optdims"] is None or len(o0["optdims"]) != 1:
+                ctx.label("variant-not-applicable")
+                continue
+            o["optdims"] = H.int_seq_form(o0["optdims"], name[8:])
+        elif name == "positional":
+            positional = True
+        elif name == "options-numpy-scalars":
+            o.update(stoptol=np.float64(o0["stoptol"]), maxiters=np.int32(o0["maxiters"]), printitn=np.uint8(min(o0["printitn"], 200)),
+                     fixsigns=np.bool_(o0["fixsigns"]))
+            if o0["printitn"] > 200:
+                ctx.label("variant-not-applicable")
+                continue
+        elif name == "options-python-ints":  # an integral tolerance / flag given as a Python int
+            if o0["stoptol"] != int(o0["stoptol"]):
+                ctx.label("variant-not-applicable")
+                continue
+            o.update(stoptol=int(o0["stoptol"]), fixsigns=int(o0["fixsigns"]))
+        elif name == "defaults-made-explicit":  # an omitted mode list = the documented default range(N)
+            if o0["dimorder"] is not None and o0["optdims"] is not None:
+                ctx.label("variant-not-applicable")
+                continue
+            o["dimorder"] = list(range(N)) if o0["dimorder"] is None else o0["dimorder"]
+            o["optdims"] = list(range(N)) if o0["optdims"] is None else o0["optdims"]
+        elif name == "defaults-all":
+            # every option left out against every option given with its documented default value (judged against each other)
+            if case.get("big"):
+                ctx.label("variant-not-applicable")
+                continue
+            ctx.label("variant-" + name)
+            dflt = dict(stoptol=1e-4, maxiters=1000, dimorder=list(range(N)), optdims=list(range(N)), printitn=1, fixsigns=True)
+            with ctx.sut("cp_als-presentation-defaults"):
+                if isinstance(init, str):
+                    np.random.seed(case["np_seed"])
+                with H.captured() as b1:
+                    r1 = ttb.cp_als(X, R, init=init)
+                r2, t2 = _call(X, R, init, dflt, case["np_seed"], positional=bool(case["np_seed"] % 2))
+            r1, r2 = _unpack(ctx, r1, "defaults-presentation-"), _unpack(ctx, r2, "defaults-presentation-")
+            _model_ok(ctx, r1[0], shape, R, "defaults-presentation-", diag)
+            _model_ok(ctx, r2[0], shape, R, "defaults-presentation-", diag)
+            ctx.check(_bits(r1) == _bits(r2), "defaults-presentation-same-result-bits",
+                      [i for i in range(5) if _bits(r1)[i] != _bits(r2)[i]])
+            ctx.check(b1.getvalue() == t2, "defaults-presentation-same-printed-text")
+            continue
+        elif name.startswith("init-"):
+            if not isinstance(init, ttb.ktensor):
+                ctx.label("variant-not-applicable")
+                continue
+            guess = H.represent_factors(init, name[5:])
+            ctx.require(H.snapshot([np.asarray(f) for f in guess.factor_matrices] + [np.asarray(guess.weights)])
+                        == H.snapshot([np.asarray(f) for f in init.factor_matrices] + [np.asarray(init.weights)]),
+                        "harness:guess-presentation-holds-the-same-values")
+        elif name.startswith("data-"):
+            try:
+                data = H.represent_data(X, name[5:])
+                same = np.array_equal(H.den(data), A) and tuple(int(n) for n in data.shape) == tuple(shape)
+            except Exception:  # noqa: BLE001  (constructors are judged by other properties)
+                same = False
+            if not same:
+                ctx.label("variant-constructor-does-not-give-the-same-tensor")
+                continue
+        ctx.label("variant-" + name)
+        kind = name.split("-")[0]
+        snapD, snapG = H.snapshot(data), H.snapshot(guess)
+        with ctx.sut("cp_als-presentation-" + kind):
+            res, text = _call(data, rank, guess, o, case["np_seed"], positional)
+        v = _unpack(ctx, res, kind + "-presentation-")
+        _model_ok(ctx, v[0], shape, R, kind + "-presentation-", diag)
+        vb = _bits(v)
+        if kind == "data" and _layout(data) != _layout(X):
+            # another memory layout of the data buffers (the tensor at hand came out of growth / permute / arithmetic with a
+            # C-ordered buffer, the constructor makes an F-ordered one): matrix products may round differently
+            ctx.label("data-presentation-changes-the-memory-layout")
+            _check_reported(ctx, v[2], A, v[0], is_sum, "data-presentation-")
+            if vb[4] == bb[4]:
+                Sx = _scale(float(np.sqrt(H.sq(A))), base[0])
+                ctx.check(vb[1] == bb[1] and H.sq(ref.den(v[0]) - ref.den(base[0])) <= 1e-18 * Sx,
+                          "data-presentation-same-model-up-to-rounding", name)
+            else:
+                ctx.check(o0["stoptol"] > 0, "data-presentation-same-iteration-count", (name, vb[4], bb[4]))
+        else:
+            ctx.check(vb == bb, kind + "-presentation-same-result-bits",
+                      (name, [i for i in range(5) if vb[i] != bb[i]], v[2].get("fit"), base[2].get("fit"), vb[4], bb[4]))
+            ctx.check(text == text0, kind + "-presentation-same-printed-text", name)
+        ctx.check(H.snapshot(data) == snapD, kind + "-presentation-data-unchanged", name)
+        ctx.check(H.snapshot(guess) == snapG, kind + "-presentation-guess-unchanged", name)
+    ctx.check(H.snapshot(X) == snapX, "data-unchanged")
+    ctx.check(H.snapshot(init) == snapI, "guess-unchanged")
+
+
+@cell("C09/cp_als/presentations", strategy=_presentation_case, quick=400, thorough=4000, shards=(4, 16))
+def cp_als_presentations(ctx, case):
+    """class 11: the same request in another presentation -- rank as a numpy integer scalar (int32, uint8, uint16, int64),
+    dimorder / optdims as list, tuple, integer arrays (int16..uint64), list of numpy scalars, 1 x n row, a single optimised mode as a
+    bare (numpy) int, all options positionally, options as numpy scalars / Python ints, the guess built from C-ordered / strided /
+    read-only (also by reference) matrices, a tuple of matrices or ktensor.copy(), the data built from read-only (also by
+    reference) / strided / C-ordered arrays, sparse subscripts in int32 / uint8 / uint16 / uint64, shape as list or numpy integers
+    -- gives the same result bit for bit and the same printed text, and changes neither data nor guess."""
+    _judged_unless_breakdown(ctx, case, _presentation_inner)
+
+
+# requests the documentation excludes.  "must": the docstring demands it of a given guess (same shape as the data, same rank as
+# requested) -> the call must be rejected.  "may": not a permutation / empty / unknown names -> judged only if rejected.
+REJECTED = {
+    "guess-one-more-component": "must", "guess-single-component": "must", "guess-mode-of-size-1": "must",
+    "guess-fixed-mode-of-size-1": "must", "guess-one-more-row": "must", "guess-one-mode-fewer": "must", "guess-one-mode-more": "must",
+    "guess-two-modes-swapped": "must",
+    "dimorder-duplicate": "may", "dimorder-short": "may", "dimorder-out-of-range": "may", "dimorder-empty": "may",
+    "optdims-empty": "may", "rank-0": "may", "rank-negative": "may", "init-unknown-name": "may", "maxiters-0": "may",
+}
+
+
+@st.composite
+def _rejected_case(draw, tier):
+    holder = draw(st.sampled_from(["tensor", "sptensor", "ttensor", "sumtensor"]))
+    c = draw(_case_strategy(holder, big_one_in=10**6)(tier))
+    c["init"] = ["normal", "uniform", "normal", "random"][draw(st.integers(0, 10**6)) % 4]
+    c["init_scale"] = 1.0
+    c["maxiters"] = min(int(c["maxiters"]), 3)
+    c["form"] = "list"
+    if draw(st.integers(0, 10**6)) % 3 == 0:  # every extent 1 except one mode: everything broadcasts against everything
+        k = draw(st.integers(0, len(c["shape"]) - 1))
+        c["shape"] = [n if i == k else 1 for i, n in enumerate(c["shape"])]
+        c["R"], c["rtrue"] = 1, 1
+    names = sorted(REJECTED)
+    ks = draw(st.lists(st.integers(0, 10**6), min_size=1, max_size=3))
+    c["rejected"] = [names[k % len(names)] for k in ks]
+    c["bad_seed"] = draw(st.integers(0, 10**6))
+    return c
+
+
+def _ill_formed(name, case, shape, R, init, o0, rng):
+    """(rank, guess, options) of the ill-formed request, or None when it cannot be formed for this case"""
+    N = len(shape)
+    rank, guess, o = R, init, dict(o0)
+    g = lambda n, r: rng.standard_normal((n, r))  # noqa: E731
+    optd = o0["optdims"] if o0["optdims"] is not None else list(range(N))
+    if name.startswith("guess-"):
+        sizes, r = list(shape), R
+        if name == "guess-one-more-component":
+            r = R + 1
+        elif name == "guess-single-component":
+            if R == 1:
+                return None
+            r = 1
+        elif name in ("guess-mode-of-size-1", "guess-fixed-mode-of-size-1", "guess-one-more-row"):
+            cand = [k for k in range(N) if shape[k] > 1 or name == "guess-one-more-row"]
+            if name == "guess-fixed-mode-of-size-1":
+                cand = [k for k in cand if k not in optd]
+            if not cand:
+                return None
+            k = cand[int(rng.integers(0, len(cand)))]
+            sizes[k] = shape[k] + 1 if name == "guess-one-more-row" else 1
+        elif name == "guess-one-mode-fewer":
+            if N < 3:
+                return None
+            sizes = sizes[:-1]
+        elif name == "guess-one-mode-more":
+            sizes = sizes + [1]
+        elif name == "guess-two-modes-swapped":
+            pairs = [(i, j) for i in range(N) for j in range(i + 1, N) if shape[i] != shape[j]]
+            if not pairs:
+                return None
+            i, j = pairs[int(rng.integers(0, len(pairs)))]
+            sizes[i], sizes[j] = sizes[j], sizes[i]
+        guess = H.make_ktensor(np.ones(r), [g(n, r) for n in sizes])
+    elif name == "dimorder-duplicate":
+        d = list(range(N))
+        d[int(rng.integers(1, N))] = 0
+        o["dimorder"] = d
+    elif name == "dimorder-short":
+        o["dimorder"] = list(range(N - 1))
+    elif name == "dimorder-out-of-range":
+        o["dimorder"] = list(range(1, N + 1))
+    elif name == "dimorder-empty":
+        o["dimorder"] = []
+    elif name == "optdims-empty":
+        o["optdims"] = []
+    elif name == "rank-0":
+        rank = 0
+    elif name == "rank-negative":
+        rank = -R
+    elif name == "init-unknown-name":
+        guess = "svd"
+    elif name == "maxiters-0":
+        o["maxiters"] = 0
+    return rank, guess, o
+
+
+def _environment():
+    """process-wide settings a library call has no business changing"""
+    po = np.get_printoptions()
+    return (tuple(sorted(np.geterr().items())), tuple(sorted((k, repr(v)) for k, v in po.items())),
+            _logging.getLogger().level, _logging.getLogger().manager.disable)
+
+
+def _rejected_inner(ctx, case, env):
+    X, A, init, shape, N, R, seq, diag = _prepare(ctx, case, env)
+    is_sum = case["holder"] == "sumtensor"
+    ctx.nt = N >= 3
+    o0 = dict(stoptol=float(case["stoptol"]), maxiters=int(case["maxiters"]),
+              dimorder=None if case["dimorder"] is None else list(case["dimorder"]),
+              optdims=None if case["optdims"] is None else list(case["optdims"]),
+              printitn=int(case["printitn"]), fixsigns=bool(case["fixsigns"]))
+    ctx.label("holder-" + case["holder"], "init-" + case["init"], f"order{N}",
+              "all-but-one-extent-1" if sum(1 for n in shape if n > 1) <= 1 else "several-extents>1")
+    snapX, snapI = H.snapshot(X), H.snapshot(init)
+    try:
+        res, text0 = _call(X, R, init, o0, case["np_seed"])
+    except (np.linalg.LinAlgError, FloatingPointError, ValueError):
+        if diag():
+            ctx.skip("als-breakdown:singular-or-annihilating-step")
+        with ctx.sut("cp_als-before"):
+            raise
+    except Exception:  # noqa: BLE001
+        with ctx.sut("cp_als-before"):
+            raise
+    base = _unpack(ctx, res, "before-")
+    _model_ok(ctx, base[0], shape, R, "before-", diag)
+    _check_reported(ctx, base[2], A, base[0], is_sum, "before-")
+    bb = _bits(base)
+    rng = np.random.default_rng([97, int(case["bad_seed"])])
+    for name in case["rejected"]:
+        bad = _ill_formed(name, case, shape, R, init, o0, rng)
+        if bad is None:
+            ctx.label("request-not-formable")
+            continue
+        rank, guess, o = bad
+        snapB = H.snapshot(guess)
+        raised = None
+        # (the harness runs every cell with all floating-point events ignored: give the settings a value that can be changed)
+        with np.errstate(divide="warn", invalid="warn", over="warn", under="ignore"):
+            envb = _environment()
+            try:
+                _call(X, rank, guess, o, case["np_seed"])
+            except Exception as e:  # noqa: BLE001
+                raised = e
+            enva = _environment()
+        ctx.label("rejected-" + name if raised is not None else "accepted-" + name)
+        if REJECTED[name] == "must":
+            ctx.check(raised is not None, "ill-formed-guess-is-rejected", name)
+        ctx.check(enva == envb, "process-settings-unchanged-by-a-rejected-request" if raised is not None else
+                  "process-settings-unchanged", name)
+        ctx.check(H.snapshot(X) == snapX, "data-unchanged-by-a-rejected-request" if raised is not None else "data-unchanged", name)
+        ctx.check(H.snapshot(init) == snapI and H.snapshot(guess) == snapB,
+                  "guess-unchanged-by-a-rejected-request" if raised is not None else "guess-unchanged", name)
+        ctx.check(_bits(base) == bb, "earlier-result-unchanged-by-a-rejected-request" if raised is not None else
+                  "earlier-result-unchanged", name)
+        # the valid request again, as if the rejected one had not happened
+        with ctx.sut("cp_als-after-a-rejected-request"):
+            res, text = _call(X, R, init, o0, case["np_seed"])
+        v = _unpack(ctx, res, "after-")
+        _model_ok(ctx, v[0], shape, R, "after-", diag)
+        vb = _bits(v)
+        ctx.check(vb == bb and text == text0, "same-result-bits-after-a-rejected-request" if raised is not None else
+                  "same-result-bits-after-another-request", (name, [i for i in range(5) if vb[i] != bb[i]]))
+    ctx.check(H.snapshot(X) == snapX, "data-unchanged")
+    ctx.check(H.snapshot(init) == snapI, "guess-unchanged")
+
+
+@cell("C09/cp_als/rejected-requests", strategy=_rejected_case, quick=300, thorough=3000, shards=(4, 16))
+def cp_als_rejected(ctx, case):
+    """classes 12 and 14: between two identical valid calls the caller makes 1..3 requests the documentation excludes -- a guess
+    with another rank (R + 1, or 1: broadcasts), another number of modes, a mode of size 1 (broadcasts; also a mode that is not
+    optimised), one more row, two modes swapped: must be rejected; a dimorder that is no permutation (duplicate, short, out of
+    range, empty), empty optdims, rank 0 / negative, an unknown guess name, maxiters 0: judged only when rejected.  After each: data,
+    valid guess, ill-formed guess, the earlier result and process-wide settings (numpy error state, print options, logging) are
+    what they were, and the valid call gives the same bits as before.  A third of the cases have every extent but one equal to 1."""
+    _judged_unless_breakdown(ctx, case, _rejected_inner)
+
+
+def _float32_extreme(case):
+    """float32 data whose squares leave the float32 range (|x| ~ 1e-25 or 1e+25) although values and norm are representable"""
+    return case.get("holder") in ("tensor", "sptensor") and float(case.get("scale", 1.0)) in (1e-25, 1e25)
+
+
+PREDICATES["float32_extreme_scale"] = _float32_extreme
+
+
+@st.composite
+def _float32_case(draw, tier):
+    holder = draw(st.sampled_from(["tensor", "sptensor"]))
+    c = draw(_case_strategy(holder, big_one_in=60)(tier))
+    c["dtype"] = "float64"  # generated in double, then rounded to single: the float32 array *is* the data
+    c.pop("mag", None)
+    c["prov"], c["sp_state"] = "ctor", "plain"
+    c["scale"] = [1.0, 1.0, 1e-6, 1e6, 1e-3, 1e-25, 1.0, 1e-12, 1e9, 1e-15, 1e15, 1e25][draw(st.integers(0, 10**6)) % 12]
+    if c["init"] in ("nvecs", "result"):
+        c["init"] = "normal"
+    c["init_scale"] = 1.0
+    c["maxiters"] = min(int(c["maxiters"]), 4)
+    return c
+
+
+def _float32_inner(ctx, case, env):
+    shape = [int(s) for s in case["shape"]]
+    N, R = len(shape), int(case["R"])
+    _, A0 = H.build_data(case)
+    A32 = np.asarray(A0).astype(np.float32)
+    A = A32.astype(np.float64)  # the tensor the float32 holder denotes, exactly
+    if not np.all(np.isfinite(A)) or H.unfolding_margin(A, R) < 1e-6:
+        ctx.skip("unfolding-rank-below-R")
+    if case["holder"] == "tensor":
+        X32, X64 = ttb.tensor(np.asfortranarray(A32), tuple(shape)), H.make_tensor(A)
+    else:
+        X64 = H.make_sptensor(A, int(case["data_seed"]), case.get("stored", "random"))
+        if np.asarray(X64.subs).size == 0:
+            ctx.skip("unfolding-rank-below-R")
+        X32 = ttb.sptensor(np.array(X64.subs, copy=True), np.asarray(X64.vals).astype(np.float32), tuple(shape))
+    init = H.build_init(case)
+    maxiters, stoptol, printitn = int(case["maxiters"]), float(case["stoptol"]), int(case["printitn"])
+    memo = {}
+
+    def diag():
+        if "v" not in memo:
+            memo["v"] = _breakdown(X64, A, R, case, init, maxiters)
+        return memo["v"]
+
+    env["diag"] = diag
+    ctx.nt = R >= 2 and N >= 3
+    ctx.label("holder-" + case["holder"], "scale-%g" % float(case["scale"]), f"order{N}", "printitn-on" if printitn > 0 else "printitn-off")
+    snapX, snapI = H.snapshot(X32), H.snapshot(init)
+    res, _ = _guarded(ctx, "cp_als-float32", diag, X32, R, case, init, maxiters, stoptol, printitn)
+    M, Minit, out = _unpack(ctx, res, "float32-")
+    _model_ok(ctx, M, shape, R, "float32-", diag)
+    ctx.check(H.snapshot(X32) == snapX, "float32-data-unchanged")
+    ctx.check(H.snapshot(init) == snapI and (not isinstance(init, ttb.ktensor) or H.snapshot(Minit) == snapI),
+              "float32-guess-unchanged-and-returned")
+    _check_normal_form(ctx, M, "float32-")
+    iters = H.as_int(out.get("iters")) if isinstance(out, dict) else None
+    ctx.require(iters is not None and 0 <= iters <= maxiters - 1, "float32-iters-within-limit", iters)
+    if stoptol == 0:
+        ctx.check(iters == maxiters - 1, "float32-stoptol0-runs-all-iterations", (iters, maxiters))
+    # reported numbers against NumPy in double on the array the holder denotes, single-precision bounds (eps32 = 6e-8)
+    ctx.require(isinstance(out, dict) and all(k in out for k in ("fit", "normresidual")), "float32-output-keys")
+    fit, nr = out["fit"], out["normresidual"]
+    ctx.require(H.is_float(fit) and H.is_float(nr) and np.isfinite(fit) and np.isfinite(nr), "float32-fit-is-finite-number", (fit, nr))
+    fit, nr = float(fit), float(nr)
+    D = ref.den(M)
+    nX = float(np.sqrt(H.sq(A)))
+    r2 = H.sq(A - D)
+    S = _scale(nX, M)
+    ctx.check(nr >= 0 and abs(nr * nr - r2) <= 1e-5 * S, "float32-normresidual-vs-recomputed",
+              f"reported^2 {nr * nr!r} recomputed^2 {r2!r} S={S:.3g}")
+    ctx.check(abs((1.0 - fit) * nX - nr) <= 1e-5 * (nX + abs(nr)), "float32-fit-vs-normresidual", (fit, nr, nX))
+    # the same values held in double: same request in two presentations (judged after one sweep only: later sweeps may amplify
+    # single-precision differences by the conditioning of the subproblems)
+    if maxiters == 1:
+        res64, _ = _guarded(ctx, "cp_als-float64-holder", diag, X64, R, case, init, maxiters, stoptol, printitn)
+        M64, _, out64 = _unpack(ctx, res64, "float64-holder-")
+        _model_ok(ctx, M64, shape, R, "float64-holder-", diag)
+        ctx.check(H.sq(D - ref.den(M64)) <= 1e-6 * S, "float32-holder-same-model-as-float64-holder-to-single-precision",
+                  (H.sq(D - ref.den(M64)), S))
+
+
+@cell("C09/cp_als/float32-data", strategy=_float32_case, quick=200, thorough=2000, shards=(4, 16))
+def cp_als_float32(ctx, case):
+    """class 11: data held in float32 (tensor, sptensor; magnitudes 1e-25 .. 1e+25, all representable).  Exact clauses (shape,
+    rank, normal form, iteration count, data / guess untouched) as usual; reported fit and residual against NumPy in double with
+    single-precision bounds 1e-5 S; after one sweep the model agrees with the one for the same values held in float64."""
+    _judged_unless_breakdown(ctx, case, _float32_inner)
